@@ -158,6 +158,22 @@ def run(ctx):
         if snap.shape[0] <= 600:      # the model sorts by insertion (quadratic): long arrays go through `consec` only
             ops.append("dups|" + rows(snap, ints)); meta.append(("dups", snap, sorted(tuple(int(v) for v in r) for r in r1[1])))
         ops.append("consec|" + rows(snap, ints)); meta.append(("consec", snap, [tuple(int(v) for v in r) for r in r2[1]]))
+    # an array buffer refilled in place between two calls (also of as_string=True): second result as on a fresh array
+    from permute import qa as _qa
+    for _ in range(ctx.n(60, 600)):
+        r_ = ctx.rng.randint(2, 6); c_ = ctx.rng.randint(1, 3)
+        a1 = np.array([[ctx.rng.randint(0, 2) for _ in range(c_)] for _ in range(r_)]); a2 = np.array([[ctx.rng.randint(0, 2) for _ in range(c_)] for _ in range(r_)])
+        buf = a1.copy()
+        first = [guarded(f_, buf, s_) for f_ in (_qa.find_duplicate_rows, _qa.find_consecutive_duplicate_rows) for s_ in (False, True)]
+        buf[...] = a2
+        second = [guarded(f_, buf, s_) for f_ in (_qa.find_duplicate_rows, _qa.find_consecutive_duplicate_rows) for s_ in (False, True)]
+        fresh = [guarded(f_, a2.copy(), s_) for f_ in (_qa.find_duplicate_rows, _qa.find_consecutive_duplicate_rows) for s_ in (False, True)]
+        ctx.case(("refill", a1.tobytes(), a2.tobytes(), r_, c_), True); ctx.count("buffer-refilled-in-place")
+        norm = lambda rr: [sorted(map(str, np.asarray(v[1]).tolist())) if v[0] == "ok" else v for v in rr]
+        if norm(second) != norm(fresh):
+            ctx.violation("oracle", {"call": "find_duplicate_rows / find_consecutive_duplicate_rows", "first": a1.tolist(), "second": a2.tolist(),
+                                     "issue": "on an array refilled in place the result differs from the result on a fresh array with the same contents",
+                                     "refilled": str(norm(second))[:300], "fresh": str(norm(fresh))[:300]}, site="qa")
     outs = run_model(ops)
     agree = True
     for o, (kind, x, impl) in zip(outs, meta):
